@@ -126,6 +126,7 @@ def _fake_post(sdl, descriptions):
     from graphql import build_schema, graphql_sync
 
     def post(url, json=None, headers=None, verify=True, **kw):     # noqa: A002
+        post.seen.append(dict(url=url, headers=dict(headers or {}), verify=verify, extra=sorted(kw)))
         schema = build_schema(sdl)
         res = graphql_sync(schema, json["query"])
         data = res.data
@@ -138,6 +139,7 @@ def _fake_post(sdl, descriptions):
                 return o
             data = strip(data)
         return httpx.Response(200, json={"data": data}, request=httpx.Request("POST", url))
+    post.seen = []
     return post
 
 
@@ -226,10 +228,17 @@ def compare_sources(name, sdl, queries, tier):
             cases += 1
             scen = f"{name}/introspection:{'with' if descriptions else 'without'}-descriptions"
             try:
-                r, files = _generate(lambda root: dict(remote_schema_url="http://schema.example/graphql"), queries,
-                                     patch_post=_fake_post(sdl, descriptions))
+                fake = _fake_post(sdl, descriptions)
+                verify = not descriptions          # both values of the TLS flag are exercised
+                with mock.patch.dict(os.environ, {"PYVC_SCHEMA_TOKEN_v2": "secret-token"}):
+                    r, files = _generate(lambda root: dict(remote_schema_url="http://schema.example/graphql",
+                                                           remote_schema_headers={"Authorization": "$PYVC_SCHEMA_TOKEN_v2", "X-Plain": "plain"},
+                                                           remote_schema_verify_ssl=verify), queries, patch_post=fake)
                 roots.append(r)
                 bad = []
+                want = dict(url="http://schema.example/graphql", headers={"Authorization": "secret-token", "X-Plain": "plain"}, verify=verify)
+                if len(fake.seen) != 1 or {k: fake.seen[0][k] for k in want} != want:
+                    bad.append("configured-url-headers-and-tls-flag-are-what-is-sent")
                 for f in sorted(set(files) | set(base)):
                     if f == "input_types.py":
                         continue
